@@ -32,6 +32,11 @@ func minUint32(a, b uint32) uint32 {
 type Filter struct {
 	mtx           sync.Mutex
 	msgFilterLoad *wire.MsgFilterLoad
+
+	// version counts the changes made through this Filter: every bit newly
+	// set by an insertion and every Reload/Unload.  Two calls that see the
+	// same version see the same filter contents.
+	version uint64
 }
 
 // NewFilter creates a new bloom filter instance, mainly to be used by SPV
@@ -100,6 +105,7 @@ func (bf *Filter) IsLoaded() bool {
 func (bf *Filter) Reload(filter *wire.MsgFilterLoad) {
 	bf.mtx.Lock()
 	bf.msgFilterLoad = filter
+	bf.version++
 	bf.mtx.Unlock()
 }
 
@@ -109,7 +115,18 @@ func (bf *Filter) Reload(filter *wire.MsgFilterLoad) {
 func (bf *Filter) Unload() {
 	bf.mtx.Lock()
 	bf.msgFilterLoad = nil
+	bf.version++
 	bf.mtx.Unlock()
+}
+
+// stateVersion returns the number of changes made through this Filter so far.
+//
+// This function is safe for concurrent access.
+func (bf *Filter) stateVersion() uint64 {
+	bf.mtx.Lock()
+	version := bf.version
+	bf.mtx.Unlock()
+	return version
 }
 
 // hash returns the bit offset in the bloom filter which corresponds to the
@@ -209,7 +226,10 @@ func (bf *Filter) add(data []byte) {
 	///  filter[arrayIndex] |= 1<<bitOffset
 	for i := uint32(0); i < bf.msgFilterLoad.HashFuncs; i++ {
 		idx := bf.hash(i, data)
-		bf.msgFilterLoad.Filter[idx>>3] |= (1 << (7 & idx))
+		if bf.msgFilterLoad.Filter[idx>>3]&(1<<(7&idx)) == 0 {
+			bf.msgFilterLoad.Filter[idx>>3] |= (1 << (7 & idx))
+			bf.version++
+		}
 	}
 }
 
